@@ -565,6 +565,11 @@ func (ev c16Event) String() string {
 		return ev.Op
 	case "expire", "reset", "resetreg":
 		return ev.Op
+	case "restart":
+		if ev.S == 0 {
+			return "restart(server)"
+		}
+		return "restart(client)"
 	}
 	return fmt.Sprintf("%s(%c)", ev.Op, 'a'+ev.S)
 }
@@ -669,21 +674,76 @@ func (e *c16Env) newWorld(cfg c16Config) *c16World {
 	w := &c16World{e: e, cfg: cfg, model: map[string]*c16Entry{}, prev: make([]*c16VP, cfg.K), known: map[string]bool{},
 		injected: map[string]bool{}, lastTs: map[string]int{}, superBy: map[string]*c16VP{}}
 	w.direct = c16Direct{w}
-	var err error
-	w.srv = &Module{vcrInstance: e.vcr, allDefinitions: e.defs, serverDefinitions: e.defs}
-	if w.srv.store, err = newSQLStore(e.srvDB, e.defs); err != nil {
-		e.t.Fatal(err)
-	}
-	w.cli = &Module{vcrInstance: e.vcr, allDefinitions: e.defs, httpClient: w.direct}
-	if w.cli.store, err = newSQLStore(e.cliDB, e.defs); err != nil {
-		e.t.Fatal(err)
-	}
-	w.cli.clientUpdater = newClientUpdater(e.defs, w.cli.store, func(def ServiceDefinition, vp vc.VerifiablePresentation) error {
-		w.added = append(w.added, vp.Raw()) // updateService verifies right after every add: this is the processing order
-		return w.cli.verifyRegistration(def, vp)
-	}, w.direct)
-	w.cli.registrationManager = newRegistrationManager(e.defs, w.cli.store, w.direct, e.vcr, nil, nil, w.cli.verifyRegistration)
+	w.bootServer()
+	w.bootClient()
 	return w
+}
+
+// c16SQLEngine hands Module.Start the database of one side (nothing else of the storage engine is used by Start).
+type c16SQLEngine struct {
+	storage.Engine
+	db *gorm.DB
+}
+
+func (s c16SQLEngine) GetSQLDatabase() *gorm.DB { return s.db }
+
+// bootServer / bootClient bring a side up the way the node does at boot: a new Module whose Start() runs the product's
+// own constructor path (newSQLStore over the side's SQL database, client updater, registration manager; no refresh
+// goroutine because the interval is 0). The first boot and every restart(server) / restart(client) event use the same
+// path, so a restart is "a new process on the SAME database".
+func (w *c16World) bootServer() {
+	e := w.e
+	w.srv = &Module{storageInstance: c16SQLEngine{db: e.srvDB}, vcrInstance: e.vcr, allDefinitions: e.defs, serverDefinitions: e.defs}
+	if err := w.srv.Start(); err != nil {
+		e.t.Fatalf("server Start: %v", err)
+	}
+	w.rowsOK = false
+}
+
+func (w *c16World) bootClient() {
+	e := w.e
+	w.cli = &Module{storageInstance: c16SQLEngine{db: e.cliDB}, vcrInstance: e.vcr, allDefinitions: e.defs, httpClient: w.direct}
+	if err := w.cli.Start(); err != nil {
+		e.t.Fatalf("client Start: %v", err)
+	}
+	cli := w.cli
+	w.cli.clientUpdater.verifier = func(def ServiceDefinition, vp vc.VerifiablePresentation) error {
+		w.added = append(w.added, vp.Raw()) // updateService verifies right after every add: this is the processing order
+		return cli.verifyRegistration(def, vp)
+	}
+}
+
+// restartChecks: restart(server) and restart(client) in the current state; a restart must change NOTHING observable
+// (seed, timestamps, entries, the client's remembered timestamp). The oracles that follow run on the restarted sides.
+func (w *c16World) restartChecks() int {
+	for _, side := range []string{"server", "client"} {
+		if w.dirty {
+			return 0
+		}
+		_, seed0, ts0 := c16Rows(w.e.t, w.sideDB(side))
+		if side == "server" {
+			w.bootServer()
+		} else {
+			w.bootClient()
+		}
+		if c := w.computeCanon(); c != w.canon {
+			_, seed1, ts1 := c16Rows(w.e.t, w.sideDB(side))
+			aspect := "entries"
+			if seed0 != seed1 || ts0 != ts1 {
+				aspect = "seed-or-timestamp"
+			}
+			w.violation("C16|"+side+"|restart-changed-state|"+aspect,
+				fmt.Sprintf("restarting the %s on its own database changed the observable state (seed %q -> %q, timestamp %d -> %d)", side, seed0, seed1, ts0, ts1))
+		}
+	}
+	return 2
+}
+
+func (w *c16World) sideDB(side string) *gorm.DB {
+	if side == "server" {
+		return w.e.srvDB
+	}
+	return w.e.cliDB
 }
 
 func (w *c16World) histStrings() []string {
@@ -842,10 +902,7 @@ func (w *c16World) regVP(s int, validity int64) *c16VP {
 func (w *c16World) reset() {
 	c16Wipe(w.e.t, w.e.srvDB)
 	w.rowsOK = false
-	var err error
-	if w.srv.store, err = newSQLStore(w.e.srvDB, w.e.defs); err != nil {
-		w.e.t.Fatal(err)
-	}
+	w.bootServer() // a new process on an empty database
 	for s, en := range w.model {
 		if en.Kind == "reg" {
 			if i := w.subjectIdx(s); i >= 0 && i < w.cfg.K {
@@ -957,6 +1014,12 @@ func (w *c16World) apply(ev c16Event) {
 		vtime.Advance(c16Advance)
 	case "poll":
 		w.pollLabelled(ev.R)
+	case "restart":
+		if ev.S == 0 {
+			w.bootServer()
+		} else {
+			w.bootClient()
+		}
 	case "reset":
 		w.reset()
 	case "resetreg":
@@ -1032,7 +1095,7 @@ func (w *c16World) enabled() []c16Event {
 	}
 	evs = append(evs, c16Event{Op: "expire"})
 	evs = append(evs, w.pollMenu()...)
-	evs = append(evs, c16Event{Op: "reset"})
+	evs = append(evs, c16Event{Op: "reset"}, c16Event{Op: "restart", S: 0}, c16Event{Op: "restart", S: 1})
 	return evs
 }
 
@@ -1582,8 +1645,9 @@ func (w *c16World) judge() (selfLoops int) {
 			}
 		}
 	}
+	selfLoops += w.restartChecks()
 	if !w.dirty {
-		w.fairSuffix()
+		w.fairSuffix() // runs on the restarted server and client: every clause simply continues across a restart
 	}
 	return selfLoops
 }
@@ -1604,7 +1668,8 @@ func TestVerifC16BFS(t *testing.T) {
 	defer r.Finish()
 	e := c16NewEnv(t, r)
 	r.Rule("explicit-state BFS over event histories {register(s,7h), register(s,1h), retract(s), third-party replay(s), " +
-		"malicious-server inject(s), expire(+2h), poll, server reset, reset+register×k} on a real server Module and a real client " +
+		"malicious-server inject(s), expire(+2h), poll, server reset, reset+register×k, restart(server), restart(client) — a new Module started " +
+		"through Module.Start on the SAME database} on a real server Module and a real client " +
 		"Module (two SQLite databases, real verifier, virtual clock); a state = canonical form of both databases + replay candidates; " +
 		"in every new state the defective-registration alphabet (25 kinds of defective registration / retraction, plus 12 generic defects applied to a retraction " +
 		"of each subject's listed entry and 11 to a retraction of an unlisted id; quick tier: at the deepest level only the kinds whose " +
